@@ -122,13 +122,27 @@ func isIdent(s string) bool {
 	}
 	for i, r := range s {
 		switch {
-		case r == '_' || unicode.IsLetter(r):
-		case i > 0 && (r == '-' || unicode.IsDigit(r) || unicode.Is(unicode.Mn, r) || unicode.Is(unicode.Mc, r) || unicode.Is(unicode.Pc, r)):
+		case r == '_' || oldLetter(r):
+		case i > 0 && (r == '-' || (r >= '0' && r <= '9') || (r >= 0x0300 && r <= 0x036f)):
 		default:
 			return false
 		}
 	}
 	return true
+}
+
+// oldLetter is deliberately conservative: letters that have been letters in every Unicode
+// version the scanner's generated tables could be built from. A string for which isIdent
+// is false is simply written in quoted / index form, which is always valid.
+func oldLetter(r rune) bool {
+	if !unicode.IsLetter(r) {
+		return false
+	}
+	switch {
+	case r < 0x0250, r >= 0x0391 && r <= 0x03c9, r >= 0x0410 && r <= 0x044f, r >= 0x3041 && r <= 0x3096, r >= 0x4e00 && r <= 0x9fa5:
+		return true
+	}
+	return false
 }
 
 // IsIdent reports whether s is an identifier per hclsyntax/spec.md (UAX #31 plus '-').
